@@ -846,7 +846,7 @@ func probeConstructions(ctx context.Context, r *vkit.Run) {
 			}
 			rep, err := integrity.NewValidator(st, dbc, false, false).ValidateAll(ctx)
 			if err != nil {
-				return "ValidateAll error: " + err.Error()
+				return fmt.Sprintf("ValidateAll error: %v (storage type %T)", err, st)
 			}
 			return fmt.Sprintf("ValidateAll ok: %d objects, %d failed", rep.TotalObjects, rep.FailedObjects)
 		}()
@@ -881,7 +881,7 @@ func runC39(tier, replay string) {
 		probeConstructions(ctx, r)
 	}
 	via := ""
-	n := r.N(20, 400)
+	n := r.N(20, 200)
 	for i := 0; i < n || (only >= 0 && i <= only); i++ {
 		if only >= 0 && i != only {
 			continue
